@@ -5,6 +5,7 @@ package main
 
 import (
 	"fmt"
+	"strconv"
 	"strings"
 
 	"verifharness/memdb"
@@ -109,6 +110,11 @@ func (s *ATSchema) Create(e *memdb.Engine) {
 	}
 	for _, p := range s.PK {
 		def.PK = append(def.PK, s.Cols[p].Name)
+	}
+	if len(def.PK) == 2 && len(s.Table)%2 == 0 {
+		// PRIMARY KEY (c1, id): the key is declared in another order than the columns; the client is expected to
+		// bring the key columns into table-column order (GetPrimaryKeyOnlyName), so nothing else changes
+		def.PK[0], def.PK[1] = def.PK[1], def.PK[0]
 	}
 	if err := e.CreateTable(def); err != nil {
 		panic(err)
@@ -462,7 +468,22 @@ func genSchema(r *Rng, table string, o ATGenOpts) *ATSchema {
 	return sc
 }
 
-var atStrings = []string{"a", "b", "ab", "x y", "it's", "", "zz", "K-9", "k:"}
+var atStrings = []string{"a", "b", "ab", "x y", "it's", "", "zz", "K-9", "k:", "7", "007", "7.0"}
+
+// numericTwin returns another text for the same number ("7" / "007" / "7.0"), if s is the text of a number
+func numericTwin(s string, pick int) (string, bool) {
+	if _, err := strconv.ParseFloat(s, 64); err != nil || s == "" {
+		return "", false
+	}
+	f, _ := strconv.ParseFloat(s, 64)
+	cands := []string{strconv.FormatFloat(f, 'f', -1, 64), "00" + strconv.FormatFloat(f, 'f', -1, 64), strconv.FormatFloat(f, 'f', 1, 64)}
+	for k := 0; k < len(cands); k++ {
+		if c := cands[(pick+k)%len(cands)]; c != s {
+			return c, true
+		}
+	}
+	return "", false
+}
 
 func genVal(r *Rng, c ATCol) ATVal {
 	if c.Nullable && r.Chance(20) {
